@@ -53,6 +53,7 @@ var commands = map[string]command{
 	"selfcert-replay":     selfcertReplay,
 	"hash-replay":         hashReplay,
 	"versions-replay":     versionsReplay,
+	"vdrapi-replay":       vdrapiReplay,
 	"chain-replay":        chainReplay,
 	"client-replay":       clientReplay,
 	"transform-replay":    transformReplay,
